@@ -66,7 +66,16 @@ MISSED_FIRST.update({
  "C08-D": "the Writer only ever wrote into a Vec; C08 now writes into a sink that takes 1/2/3/any bytes per write call, and C09 writes every event sequence into short sinks (sync, and async with Pending) and compares with the Vec output",
  "C17-C": "payload generators excluded U+FEFF and the monitor demanded that no event contains it; U+FEFF is now generated as payload content (first/last/inner) where the encoding has it, and only the document's own mark must be removed",
 })
-# second and third round: change / needs are taken from the agent's NOTES.md
+MISSED_FIRST.update({
+ "C06-F": "no mixed $value list whose element items have text content of their own (struct variant with $text / primitive $value, newtype around a struct); added family type HasMixed2",
+ "C09-E": "start tags were always built on an owned buffer; edits (set_name first of all) now also run on start tags that borrow their content, as events from a reader do",
+ "C13-E": "name pools had no name with a legal non-ASCII first character followed by an illegal one; added to the key, root and variant pools",
+ "C14-E": "no skipped element that declares / re-binds xsi before a sibling with xsi:nil (C05 caught the change through the buffered NsReader); added such atoms and a dedicated mutation to the C07/C14 document mutator",
+ "C15-F": "no type with named children and an optional $text, and unknown children were never inserted in their pretty-printed form (whitespace around them); added the o_ content model, type OptTextEl, the unknown_child_spaced rewrite and text-first unknown blobs",
+ "C18-F": "events returned after the I/O error were only counted; they are now judged: Eof, or exactly what the fault-free run returns from the failed call on",
+ "C20-F": "no shape whose container has text content between the list items; added OvlText (the text is one more sibling of one event)",
+})
+# second, third and fourth round: change / needs are taken from the agent's NOTES.md
 def from_notes(d):
     t = open(d + '/NOTES.md').read()
     title = t.split('\n', 1)[0].lstrip('# ').strip()
@@ -75,25 +84,25 @@ def from_notes(d):
     needs = re.sub(r'\s+', ' ', m.group(1)).strip()[:600] if m else ''
     return title, needs
 for d in sorted(os.listdir('/verif/seeded')):
-    if re.fullmatch(r'C\d\d-[CD]', d):
+    if re.fullmatch(r'C\d\d-[C-F]', d):
         S[d] = from_notes('/verif/seeded/' + d)
 res = {}
 if os.path.exists('/verif/seeded/RESULTS.txt'):
     for l in open('/verif/seeded/RESULTS.txt'):
-        m = re.match(r'(C\d\d-[A-D])/patch.diff (C\d\d) exit=(\d+)(.*)', l)
+        m = re.match(r'(C\d\d-[A-F])/patch.diff (C\d\d) exit=(\d+)(.*)', l)
         if m:
             res.setdefault(m.group(1), []).append({"check": m.group(2), "exit": int(m.group(3)), "first_detail": m.group(4).strip()[:240]})
 for k, (change, needs) in S.items():
     d = '/verif/seeded/' + k
     conf = open(d + '/CONFIRM.txt').read().strip().split('\n') if os.path.exists(d + '/CONFIRM.txt') else []
     meta = {
-        "property": k[:3], "variant": k[4:], "round": (3 if k[:3] in ROUND3 else 2) if k[4:] in "CD" else 1, "written_by": "fresh sub-agent given only the property text and a scratch worktree (nothing from /verif)",
+        "property": k[:3], "variant": k[4:], "round": 4 if k[4:] in "EF" else (3 if k[:3] in ROUND3 else 2) if k[4:] in "CD" else 1, "written_by": "fresh sub-agent given only the property text and a scratch worktree (nothing from /verif)",
         "change": change, "needs_to_manifest": needs,
         "confirmed_by_me": {"how": "tools/confirm_seed.sh in the scratch worktree: patch applies; default-feature suite passes with it (all-features too where ALLFEAT=1); demo fails with it; demo passes without it", "log": conf},
         "checks_run_against_it": res.get(k, []),
         "detected": any(r["exit"] == 1 for r in res.get(k, [])),
     }
-    if os.path.exists(d + "/patch_against_F1_fix.diff"):
+    if os.path.exists(d + "/patch_against_F1_fix.diff") or os.path.exists(d + "/patch_against_4312626.diff"):
         meta["ported"] = "patch.diff is the same change ported to the tree after fix 02ce051 (F9) and re-confirmed there; patch_against_F1_fix.diff is the agent's original"
     if k in MISSED_FIRST:
         meta["missed_at_first"] = MISSED_FIRST[k]
